@@ -48,6 +48,26 @@ func vfAtLoad(prop, part string) {
 	vfAtLoadRun(r, &nb, shard, shards, "p2p", len(pmenu), func(i int) string { return "p2p:" + pmenu[i].String() }, func(i int) string { return "p2p:" + pmenu[i].Kind },
 		func() (*vfTW, int) { return vfBuildP2PTW(), 1 },
 		func(t *vfTW, i int) (string, *vfClient) { return t.p2pRequest(pmenu[i], 9) })
+	// two users create the same p2p topic from both ends: u0's {sub topic=<u2>} creates it, u2 acts meanwhile
+	nmenu := []string{"sub", "setpriv", "getdesc", "pub"}
+	vfAtLoadRun(r, &nb, shard, shards, "p2pnew", len(nmenu), func(i int) string { return "p2pnew:" + nmenu[i] + "(u2)" }, func(i int) string { return "p2pnew:" + nmenu[i] },
+		func() (*vfTW, int) {
+			t := vfBuildP2PTW()
+			t.grp = t.users[0].uid.P2PName(t.users[2].uid)
+			return t, 0
+		},
+		func(t *vfTW, i int) (string, *vfClient) {
+			a := t.users[0].id()
+			switch nmenu[i] {
+			case "sub":
+				return fmt.Sprintf(`{"sub":{"id":"$ID","topic":"%s"}}`, a), t.cl[2]
+			case "setpriv":
+				return fmt.Sprintf(`{"set":{"id":"$ID","topic":"%s","desc":{"private":{"note":"of-u2"}}}}`, a), t.cl[2]
+			case "getdesc":
+				return fmt.Sprintf(`{"get":{"id":"$ID","topic":"%s","what":"desc"}}`, a), t.cl[2]
+			}
+			return fmt.Sprintf(`{"pub":{"id":"$ID","topic":"%s","content":"early"}}`, a), t.cl[2]
+		})
 	r.Sample("setpriv(u2) at event 9 (after store call SubsForTopic)")
 }
 
@@ -112,6 +132,8 @@ func vfAtLoadRun(r *vfev.Report, nbp *int, shard, shards int, target string, nop
 				addr := t.grp
 				if target == "p2p" {
 					addr = t.users[1-loader].id()
+				} else if target == "p2pnew" {
+					addr = t.users[2].id()
 				}
 				req, c := request(t, oi)
 				n := 0
